@@ -131,20 +131,35 @@ func (s *skSnap) String() string {
 
 func snapEqual(a, b *skSnap) bool { return a.String() == b.String() }
 
-// reducedString keeps what stays bit-for-bit deterministic when weights are not dyadic (after a
-// mapping change): per-bin weights, zero weight and the exact statistics. Totals and rank-based
-// answers are sums over a store whose iteration order is unspecified (sparse map, buffer/page
-// split), so their last bits may legitimately vary.
-func (s *skSnap) reducedString() string {
-	r := *s
-	r.Count, r.Min, r.Max, r.Qs, r.XQs = 0, 0, 0, nil, nil
-	r.Pos.Total, r.Neg.Total = 0, 0
-	return r.String()
+// reducedEqual is the comparison used for slots holding non-dyadic weights (results of a mapping change):
+// the same bins, each weight and the zero weight equal up to the rounding of a different summation order
+// (a paginated store that compacts during a read adds its unit entries one by one instead of at once; a sparse
+// store iterates in map order), and the exact statistics - which are accumulated in call order - bit for bit.
+// Totals and rank-based answers are sums over the whole store and are not compared.
+func reducedEqual(a, b *skSnap) bool {
+	near := func(x, y uint64) bool {
+		fx, fy := math.Float64frombits(x), math.Float64frombits(y)
+		return fx == fy || math.Abs(fx-fy) <= 1e-12*math.Max(math.Abs(fx), math.Abs(fy))
+	}
+	side := func(x, y sideSnap) bool {
+		if len(x.Bins) != len(y.Bins) || x.Empty != y.Empty {
+			return false
+		}
+		for k, v := range x.Bins {
+			w, ok := y.Bins[k]
+			if !ok || !near(v, w) {
+				return false
+			}
+		}
+		return true
+	}
+	return side(a.Pos, b.Pos) && side(a.Neg, b.Neg) && near(a.Zero, b.Zero) && a.Empty == b.Empty &&
+		a.Exact == b.Exact && a.XCount == b.XCount && a.XSum == b.XSum && a.XMin == b.XMin && a.XMax == b.XMax && a.XMinErr == b.XMinErr
 }
 
 func snapEqualMode(a, b *skSnap, reduced bool) bool {
 	if reduced {
-		return a.reducedString() == b.reducedString()
+		return reducedEqual(a, b)
 	}
 	return snapEqual(a, b)
 }
